@@ -115,7 +115,11 @@ class Module:
                     self.imports[a.asname or a.name] = (n.module, a.name)
             elif isinstance(n, ast.Import):
                 for a in n.names:
-                    self.imports[a.asname or a.name] = (a.name, None)
+                    if a.asname:
+                        self.imports[a.asname] = (a.name, None)
+                    else:
+                        top = a.name.split(".")[0]          # `import scipy.spatial` binds the name `scipy`
+                        self.imports[top] = (top, None)
 
 
 class ARepo:
